@@ -109,6 +109,11 @@ func versionFromPath(path string) (string, int) {
 	}
 	dot += und
 
+	// "_" directly followed by "." leaves no room for the "v<version>" part.
+	if und+2 > dot {
+		return path, 0
+	}
+
 	version, err := strconv.Atoi(path[und+2 : dot])
 	if err != nil {
 		return path, 0
